@@ -12,6 +12,7 @@ import (
 // Context switches at every atomic access (bucket start, update lock, counters, array slots).
 
 func VerifC09() {
+	ev := []base.MetricEvent{base.MetricEventPass, base.MetricEventRt}[rt.Param("EV")] // the event kind recorded and read
 	S, I := uint32(rt.Param("S")), uint32(rt.Param("I"))
 	W := rt.Param("W")
 	bl := uint64(I / S)
@@ -30,7 +31,7 @@ func VerifC09() {
 		rt.Spawn(func() {
 			now := util.CurrentTimeMillis()
 			nows[i] = now
-			bla.addCountWithTime(now, base.MetricEventPass, ns[i])
+			bla.addCountWithTime(now, ev, ns[i])
 			end := util.CurrentTimeMillis()
 			rt.Assume(end-now < bl) // no recorder is stalled for longer than one bucket length
 		})
@@ -39,7 +40,7 @@ func VerifC09() {
 	if rt.Param("R") != 0 { // a concurrent reader
 		rt.Spawn(func() {
 			now := util.CurrentTimeMillis()
-			rdGot = bla.CountWithTime(now, base.MetricEventPass)
+			rdGot = bla.CountWithTime(now, ev)
 		})
 	}
 	rt.Join()
@@ -63,7 +64,7 @@ func VerifC09() {
 			rollover = true
 		}
 	}
-	got := bla.CountWithTime(tr, base.MetricEventPass)
+	got := bla.CountWithTime(tr, ev)
 	rt.Assert(got <= total && got >= 0, "reported totals never exceed what has been recorded")
 	if S > 1 {
 		rt.Assert(got <= inWindow, "an amount is only credited to the bucket its timestamp selects: the window total never exceeds the amounts recorded for its buckets")
